@@ -574,19 +574,11 @@ def _check_ctcp_framing(ctx, env):
                         work.append(h)
         used = sorted({nm.id for f_ in readers for nm in ast.walk(f_) if isinstance(nm, ast.Name) and isinstance(env.get(nm.id), re.Pattern)})
 
-        def has_any(items):
-            for op, av in items:
-                if str(op) == "ANY":
-                    return True
-                for sub in (av if isinstance(av, (list, tuple)) else [av]):
-                    if isinstance(sub, sre_parser.SubPattern) and has_any(sub.data):
-                        return True
-                    if isinstance(sub, (list, tuple)):
-                        for s2 in sub:
-                            if isinstance(s2, sre_parser.SubPattern) and has_any(s2.data):
-                                return True
-                            if isinstance(s2, (list, tuple)) and any(isinstance(s3, sre_parser.SubPattern) and has_any(s3.data) for s3 in s2):
-                                return True
+        def has_any(node):
+            if isinstance(node, sre_parser.SubPattern):
+                return any(has_any(i) for i in node.data)
+            if isinstance(node, (list, tuple)):
+                return (len(node) == 2 and str(node[0]) == "ANY") or any(has_any(x) for x in node)
             return False
         for nm in used:
             rx = env[nm]
@@ -594,7 +586,7 @@ def _check_ctcp_framing(ctx, env):
                 tree = sre_parser.parse(rx.pattern, rx.flags)
             except Exception as ex:     # noqa: BLE001
                 raise Abstain(f"pattern {nm} not parseable ({ex})")
-            dot = has_any(tree.data)
+            dot = has_any(tree)
             ctx.check(not dot or bool(rx.flags & re.DOTALL), "ctcp/reader-regex-any-matches-all", f"{base}{nm}",
                       f"the pattern {rx.pattern!r} is applied to message text by the CTCP reader and contains '.', but is compiled without re.DOTALL: '.' stops at a line feed, "
                       "so data after an embedded LF is dropped or left unconverted (LF is ordinary data once low-level quoting is undone)")
